@@ -251,6 +251,8 @@ def sem_gate(prop: str, res: Result, repo: Repo, helpers, rule=RULE) -> bool:
             return repo.method("hexital.core.indicator", "Indicator", h.split(".")[1])
         if h.startswith("Managed."):
             return repo.method("hexital.core.indicator", "Managed", h.split(".")[1])
+        if h in ("valid_index", "absindex", "validate_index"):
+            return repo.func("hexital.utils.indexing", h)
         return repo.func("hexital.utils.candles", h)
 
     vs = {h: verdict(repo, h) for h in helpers}
